@@ -1,57 +1,30 @@
 /*@unit {
  'kind': 'bounded', 'mode': 'plain',
- 'bound': 'nmemb = NMEMB in 0..5 (quick), 0..6 (thorough), element size 1 (unsigned char order) or 4 (int order), every rand() result (all pivot choices), arbitrary contents incl. duplicates',
+ 'bound': 'nmemb = NMEMB in 0..4 (quick) / 0..6 (thorough), element size 1 (unsigned char order) or 4 (int order), every rand() result (all pivot choices), arbitrary contents incl. duplicates',
  'functions': ['qsort', 'swap'],
- 'clauses': 'ISO 7.22.5.2: afterwards the array is sorted w.r.t. the comparator and is a permutation of its input (multiset equality through an arbitrary probe value); every access inside the array; compar only ever gets pointers to array elements or to the private pivot copy',
- 'params': {'SIZE': [1, 4], 'NMEMB': [0, 1, 2, 3, 4, 5]},
+ 'clauses': 'ISO 7.22.5.2: afterwards the array is sorted w.r.t. the comparator and is a permutation of its input (multiset equality through an arbitrary probe value); every compar argument and every memcpy block lies inside the array (or is a private copy); terminates within the unwinding bounds',
+ 'params': {'SIZE': [1, 4], 'NMEMB': [0, 1, 2, 3, 4]},
  'params_thorough': {'SIZE': [1, 4], 'NMEMB': [0, 1, 2, 3, 4, 5, 6]},
- 'unwind': 8, 'cbmc_flags': ['--unwindset', 'vc_qsort:5'],
- 'complete_unwinding': 'all loops and the recursion are bounded by nmemb; --unwinding-assertions prove that 8 iterations / 5 nested activations suffice',
+ 'unwind': 8, 'cbmc_flags': ['--unwindset', 'vc_qsort:5,vc_qsort.0:8,vc_qsort.1:8,vc_qsort.2:5'], 'object_bits': 12,
+ 'complete_unwinding': 'all loops and the recursion are bounded by nmemb <= 6; --unwinding-assertions prove that the bounds suffice',
  'timeout': 300,
+ 'kf': ['C11_qsort_j_before_base'], 'kf_probe_case': {'C11_qsort_j_before_base': {'SIZE': 4, 'NMEMB': 4}},
  'witness': {'unwind': 8},
- 'trusted': ['memcpy = the shim memcpy (compat/libc/string/memcpy.c, real code, byte loop unwound); rand() = arbitrary int per call'],
+ 'trusted': ['memcpy = the shim memcpy (compat/libc/string/memcpy.c, real code, byte loop unwound) behind a range-checking wrapper; rand() = arbitrary int per call'],
 } @*/
 #include "vc.h"
 #include "c11_libc_env.h"
+#include "c11_qsort_harness.h"
 #define memcpy vc_memcpy
 #include "compat/libc/string/memcpy.c"
+#undef memcpy
+#define memcpy q_memcpy
 #define qsort vc_qsort
 #define rand vc_rand
 #include "compat/libc/stdlib/qsort.c"
 #undef qsort
 #undef rand
-
-static const char *g_q_base;
-static size_t g_q_bytes;
-static const int *g_rnd;
-static unsigned g_rnd_pos;
-int vc_rand(void) { return g_rnd[g_rnd_pos++ & 7]; }
-
-/* comparator by contract: a pointer into the array must point at an element (inside, aligned); any other
- * pointer must be a private copy (qsort's pivot `key`), i.e. a different object */
-static void q_arg_ok(const void *p)
-{
-    const char *q = (const char *)p;
-#ifdef REPLAY
-    if (q >= g_q_base - 64 && q < g_q_base + g_q_bytes + 64)
-        __CPROVER_assert(q >= g_q_base && (size_t)(q - g_q_base) + SIZE <= g_q_bytes && (size_t)(q - g_q_base) % SIZE == 0, "qsort: compar argument points to an element inside the array");
-#else
-    if (__CPROVER_same_object(q, g_q_base))
-        __CPROVER_assert(__CPROVER_POINTER_OFFSET(q) >= 0 && (size_t)__CPROVER_POINTER_OFFSET(q) + SIZE <= g_q_bytes && (size_t)__CPROVER_POINTER_OFFSET(q) % SIZE == 0, "qsort: compar argument points to an element inside the array");
-#endif
-}
-#if SIZE == 1
-typedef unsigned char elem_t;
-#else
-typedef int elem_t;
-#endif
-static int q_cmp(const void *a, const void *b)
-{
-    q_arg_ok(a);
-    q_arg_ok(b);
-    elem_t x = *(const elem_t *)a, y = *(const elem_t *)b;
-    return (x > y) - (x < y);
-}
+#undef memcpy
 
 void harness(void)
 {
@@ -60,7 +33,8 @@ void harness(void)
     WIT_ARR(int, rnd, 8);
     WIT(elem_t, probe);
     __CPROVER_assume(nmemb == NMEMB);
-    elem_t *a = NEW_OBJ(nmemb * sizeof(elem_t));
+    char *obj = NEW_OBJ(Q_PAD + nmemb * sizeof(elem_t));
+    elem_t *a = (elem_t *)(obj + Q_PAD);
     for (size_t i = 0; i < nmemb; i++)
         a[i] = content[i];
     g_rnd = rnd;
